@@ -14,6 +14,8 @@ g("CodeALIGN", entry="CodeALIGN", defs=["-DVERIF_ALIGN_ARGS=1"], flags=["--signe
 GROUPS[-1]["name"] = "pc_CodeALIGN_1"
 g("CodeALIGN", entry="CodeALIGN", defs=["-DVERIF_ALIGN_ARGS=2"], flags=["--signed-overflow-check"], timeout=300)
 GROUPS[-1]["name"] = "pc_CodeALIGN_2"
+GROUPS.append(G("st_label_struct_elem", "harness/C01/h_asmlabel.c", "h_label_struct_elem", enforce=[], link=[], stubs=["stubs/gerr.c"], unwind=6, timeout=300, dfcc=False, drop_unused=True,
+                object_bits=12, functions=["LabelHandle", "LabelModify"], bounded="at most 2 unnamed struct/union levels inside the named structure"))
 TRUSTED_BASE = ["stubs/gerr.c", "evaluator oracle (EvalStrIntExpression*: arbitrary value/ok/flags)",
                 "ProgCounter/EProgCounter mirrored in the harness (asmsub.c one-liners)", "BookKeeping stub (counts)"]
 ASSUMPTIONS = ["ActPC < SegCountPlusStruct (type invariant of the segment selector)", "malloc/calloc never fail",
